@@ -72,6 +72,145 @@ impl Default for WorldOpts {
     }
 }
 
+/// Random parametric Lark grammar (rules parameterised by a 64-bit value, docs/parametric.md).
+/// `hostile == false`: syntactically valid, every bit index / range / value inside its documented
+/// domain but biased to the edges of it (bit 63, ranges ending at 64, all-ones values).
+/// `hostile == true`: now and then an index, range or value just outside (64, 65, 2^64, empty or
+/// reversed ranges), unknown functions, deep condition nesting.
+/// Valid mode: every rule has an unguarded empty alternative and an unguarded literal + self
+/// reference, so every state can both stop and go on; the guarded alternatives exercise the
+/// parameter logic. Hostile mode: parameters can strand.
+pub fn random_param_grammar(rng: &mut Rng, hostile: bool) -> String {
+    fn idx(rng: &mut Rng, hostile: bool) -> String {
+        if hostile && rng.chance(0.12) {
+            return rng
+                .pick(&["64", "64", "64", "65", "127", "255", "4294967295", "4294967296", "18446744073709551615", "18446744073709551616", "0x3f", "-1"])
+                .to_string();
+        }
+        match rng.below(10) {
+            0..=5 => rng.below(6).to_string(),
+            6 => rng.below(64).to_string(),
+            7 => "63".into(),
+            8 => rng.pick(&["31", "32", "33", "62"]).to_string(),
+            _ => rng.below(12).to_string(),
+        }
+    }
+    fn range(rng: &mut Rng, hostile: bool) -> String {
+        if rng.chance(0.2) {
+            return "_".into();
+        }
+        if hostile && rng.chance(0.12) {
+            return rng
+                .pick(&["[0:65]", "[64:64]", "[64:65]", "[3:3]", "[5:2]", "[63:63]", "[0:0]", "[0:18446744073709551616]", "[:3]", "[1:]", "[1,3]", "[-1:3]"])
+                .to_string();
+        }
+        let (x, y) = match rng.below(8) {
+            0 => (0, 64),
+            1 => (63, 64),
+            2 => (rng.below(63), 64),
+            3 => (0, 63),
+            4 => (32, 64),
+            _ => {
+                let x = rng.below(10);
+                (x, x + 1 + rng.below(5))
+            }
+        };
+        format!("[{x}:{y}]")
+    }
+    fn value(rng: &mut Rng, hostile: bool) -> String {
+        if hostile && rng.chance(0.12) {
+            return rng
+                .pick(&["18446744073709551616", "0x10000000000000000", "0x", "0xg", "99999999999999999999999", "-1", "1e3", "0x-1"])
+                .to_string();
+        }
+        match rng.below(10) {
+            0..=4 => rng.below(8).to_string(),
+            5 => format!("0x{:x}", rng.below(256)),
+            6 => "0xffffffffffffffff".into(),
+            7 => "18446744073709551615".into(),
+            8 => "0x8000000000000000".into(),
+            _ => rng.below(40).to_string(),
+        }
+    }
+    fn expr(rng: &mut Rng, hostile: bool) -> String {
+        if hostile && rng.chance(0.05) {
+            return rng.pick(&["shl(1)", "set_bit()", "set_bit(1, 2)", "incr(3)", "bit_or(_)", "set_bit", "_::_", ""]).to_string();
+        }
+        match rng.below(12) {
+            0..=3 => format!("set_bit({})", idx(rng, hostile)),
+            4 => format!("clear_bit({})", idx(rng, hostile)),
+            5 => format!("bit_and({})", value(rng, hostile)),
+            6 => format!("bit_or({})", value(rng, hostile)),
+            7..=8 => format!("incr({})", range(rng, hostile)),
+            9 => format!("decr({})", range(rng, hostile)),
+            // (a constant inside a rule body is accepted by the front end but trips an internal
+            // assertion of the grammar optimiser - a reported construction error; hostile mode only)
+            10 if hostile => value(rng, hostile),
+            _ => "_".into(),
+        }
+    }
+    fn cond(rng: &mut Rng, hostile: bool, depth: usize) -> String {
+        if hostile && rng.chance(0.04) {
+            return rng.pick(&["maybe()", "and(true)", "not()", "eq(_)", "lt(3, _)", "bit_set", "or(true, true, true)"]).to_string();
+        }
+        let max = if depth >= (if hostile { 6 } else { 2 }) { 14 } else { 18 };
+        match rng.below(max) {
+            0..=2 => format!("bit_clear({})", idx(rng, hostile)),
+            3 => format!("bit_set({})", idx(rng, hostile)),
+            4 => format!("is_ones({})", range(rng, hostile)),
+            5 => format!("is_zeros({})", range(rng, hostile)),
+            6..=9 => {
+                let f = *rng.pick(&["eq", "ne", "lt", "le", "gt", "ge"]);
+                format!("{f}({}, {})", range(rng, hostile), value(rng, hostile))
+            }
+            10..=12 => {
+                let f = *rng.pick(&["bit_count_eq", "bit_count_ne", "bit_count_lt", "bit_count_le", "bit_count_gt", "bit_count_ge"]);
+                format!("{f}({}, {})", range(rng, hostile), idx(rng, hostile))
+            }
+            // (docs/parametric.md lists `true()` as well; the parser only takes `true`)
+            13 => (*rng.pick(if hostile { &["true", "true()"][..] } else { &["true"][..] })).to_string(),
+            14..=15 => format!("and({}, {})", cond(rng, hostile, depth + 1), cond(rng, hostile, depth + 1)),
+            16 => format!("or({}, {})", cond(rng, hostile, depth + 1), cond(rng, hostile, depth + 1)),
+            _ => format!("not({})", cond(rng, hostile, depth + 1)),
+        }
+    }
+    let n_rules = rng.range(1, 3);
+    let lits = ["a", "b", "c", "d", "ab", "ba", ",", " ", "x", "0", "1"];
+    let mut out = String::new();
+    let init = if rng.chance(0.6) { "0x0".to_string() } else { value(rng, hostile) };
+    out.push_str(&format!("start: {}r0::{}{}\n", if rng.chance(0.2) { "\"<\" " } else { "" }, init, if rng.chance(0.2) { " \">\"" } else { "" }));
+    for r in 0..n_rules {
+        let n_alt = rng.range(2, 6);
+        let mut alts: Vec<String> = vec![];
+        // the way out: an empty alternative (hostile mode: usually guarded, so parameters can strand)
+        let guard = if hostile && rng.chance(0.7) { format!(" %if {}", cond(rng, hostile, 0)) } else { String::new() };
+        alts.push(format!("\"\"{guard}"));
+        if !hostile {
+            // ... and one way on, so that no state is a dead end or the end of the language
+            alts.push(format!("{:?} r{r}::_", rng.pick(&lits)));
+        }
+        for _ in 0..n_alt {
+            let mut a = String::new();
+            if rng.chance(0.9) {
+                a.push_str(&format!("{:?} ", rng.pick(&lits)));
+            } else {
+                a.push_str("/[a-c]{1,2}/ ");
+            }
+            if rng.chance(0.85) {
+                let target = rng.below(n_rules);
+                let _ = r;
+                a.push_str(&format!("r{target}::{}", expr(rng, hostile)));
+            }
+            if rng.chance(0.75) {
+                a.push_str(&format!(" %if {}", cond(rng, hostile, 0)));
+            }
+            alts.push(a);
+        }
+        out.push_str(&format!("r{r}::_ : {}\n", alts.join("\n    | ")));
+    }
+    out
+}
+
 /// productive-by-construction random CFG: every non-terminal's first alternative is terminal-only,
 /// every terminal is a non-empty literal or class.
 pub fn random_cfg(rng: &mut Rng, swallowing: bool) -> String {
@@ -203,8 +342,18 @@ pub fn tight_limits(rng: &mut Rng) -> LimitsSpec {
 
 pub fn gen_world(rng: &mut Rng, o: &WorldOpts) -> (WorldSpec, bool) {
     let use_rand = o.allow_random_cfg && o.want_tags.iter().all(|t| *t == "prod") && rng.chance(0.2);
+    let use_param = !use_rand && o.allow_random_cfg && o.want_tags.is_empty() && rng.chance(0.04);
+    let param_text = if use_param {
+        (0..4)
+            .map(|_| random_param_grammar(rng, false))
+            .find(|t| grammar_constructs(GKind::Lark, t))
+    } else {
+        None
+    };
     let (gid, gkind, gtext0, _tokref) = if use_rand {
         ("rand_cfg".to_string(), GKind::Lark, random_cfg(rng, o.swallowing_terminals), false)
+    } else if let Some(t) = param_text {
+        ("rand_param".to_string(), GKind::Lark, t, false)
     } else {
         let e = pick_entry(rng, o);
         (e.id.to_string(), e.kind, e.text.to_string(), e.has("tokref"))
@@ -220,6 +369,11 @@ pub fn gen_world(rng: &mut Rng, o: &WorldOpts) -> (WorldSpec, bool) {
         }
     };
     let mut vocab = vocab;
+    if _tokref && rng.chance(0.3) {
+        // special tokens at ids around 1000 (their \xFF[id] spelling gains a digit there)
+        let base = 997 + rng.below(4);
+        pad_vocab(&mut vocab, base);
+    }
     if !_tokref && rng.chance(0.15) {
         // multi-EOS vocabulary: <|pad|> is a second end-of-sequence token
         let base = vocab.words.len() - SPECIALS.len();
@@ -255,6 +409,7 @@ pub fn gen_world(rng: &mut Rng, o: &WorldOpts) -> (WorldSpec, bool) {
             slices,
             limits,
             fresh_rebuild: rng.chance(0.15),
+            max_tokens: None,
         },
         productive,
     )
@@ -349,6 +504,7 @@ fn base(prop: &str, family: &str, seed: u64, index: u64, world: WorldSpec, produ
         productive,
         c_tok_v2: false,
         auto_restart: !matches!(prop, "C18" | "C20"),
+        budget_oracle: false,
     }
 }
 
@@ -582,8 +738,20 @@ fn gen_c03(rng: &mut Rng, seed: u64, index: u64, long: bool) -> Scenario {
     o.want_tags = vec!["prod"];
     o.avoid_tags = vec!["tokref"];
     o.canonical = Some(false);
-    let (world, productive) = gen_world(rng, &o);
-    let mut sc = base("C03", "deadend", seed, index, world, productive);
+    let (mut world, productive) = gen_world(rng, &o);
+    // item budgets: a mask computation cut short by step_max_items / max_items_in_row has to end in the
+    // documented limit stop, never in an empty mask / 'no extension' (small values: the budget has
+    // to run out in the middle of ordinary steps, at every possible item count)
+    let items_limit = rng.chance(0.15);
+    if items_limit {
+        if rng.chance(0.8) {
+            world.limits.step_max_items = rng.log_uniform(2, 600) as usize;
+        } else {
+            world.limits.max_items_in_row = rng.log_uniform(2, 100) as usize;
+        }
+    }
+    let mut sc = base("C03", if items_limit { "deadend_items_limit" } else { "deadend" }, seed, index, world, productive);
+    sc.fault_injecting = items_limit;
     let steps = if long { rng.range(30, 70) } else { rng.range(12, 32) };
     let mut g = G { rng, ops: vec![] };
     g.ops.push(Op::New {
@@ -861,7 +1029,16 @@ fn gen_c11(rng: &mut Rng, seed: u64, index: u64, long: bool) -> Scenario {
 fn gen_c12(rng: &mut Rng, seed: u64, index: u64, long: bool) -> Scenario {
     let mut o = WorldOpts::default();
     o.prefer_tags = vec!["stopc", "ff"];
-    let (world, productive) = gen_world(rng, &o);
+    if rng.chance(0.1) {
+        // captures are an observable too: whatever the rolled-back tokens captured has to go
+        o.want_tags = vec!["capt"];
+        o.allow_random_cfg = false;
+    }
+    let (mut world, productive) = gen_world(rng, &o);
+    if rng.chance(0.1) {
+        // a total token budget (TopLevelGrammar.max_tokens): rollback refunds exactly what it takes back
+        world.max_tokens = Some(rng.range(3, 30));
+    }
     let mut sc = base("C12", "rollback", seed, index, world, productive);
     let bursts = if long { rng.range(6, 14) } else { rng.range(3, 8) };
     let mut g = G { rng, ops: vec![] };
@@ -1134,6 +1311,9 @@ fn gen_c14(rng: &mut Rng, seed: u64, index: u64, long: bool) -> Scenario {
     if sub == 2 {
         return gen_capi_threads(rng, seed, index, long);
     }
+    if sub == 3 {
+        return gen_c14_budget(rng, seed, index, long);
+    }
     let faulty = rng.chance(0.25);
     let mut o = WorldOpts::default();
     o.tight_limits = faulty && rng.chance(0.5);
@@ -1250,6 +1430,119 @@ fn gen_c14(rng: &mut Rng, seed: u64, index: u64, long: bool) -> Scenario {
             g.ops.push(Op::ChkFresh { h: *h });
         }
         sc.tasks.push(std::mem::take(&mut g.ops));
+    }
+    sc
+}
+
+/// Step budgets across clones that share a lexer: the only tight limit is step_lexer_fuel, a victim
+/// clone asks for a mask now and then while its siblings (diverging histories) grow the shared
+/// automaton in between. Oracles: the budget accounting window around every mask (exec.rs
+/// budget_window_*), and the usual fresh-engine comparison (masks only: limit stops are legal).
+/// Half of the runs are one task interleaving the handles operation by operation (all windows
+/// clean), the other half simulated threads under schedules that switch rarely.
+fn gen_c14_budget(rng: &mut Rng, seed: u64, index: u64, long: bool) -> Scenario {
+    let mut o = WorldOpts::default();
+    o.canonical = Some(false);
+    o.vocab_kinds = vec!["byte", "synth", "synth"];
+    let (mut world, productive) = gen_world(rng, &o);
+    world.limits = LimitsSpec::default();
+    if rng.chance(0.65) {
+        world.limits.step_lexer_fuel = rng.log_uniform(40, 4000);
+    } else {
+        // the Earley item budget is per engine: a sibling that runs out of it must not take the
+        // others with it (oracle: exec.rs on_matcher_err, "item_limit_not_earned")
+        world.limits.step_max_items = rng.log_uniform(10, 3000) as usize;
+    }
+    let mut sc = base("C14", "clone_budget", seed, index, world, productive);
+    sc.fault_injecting = true;
+    sc.budget_oracle = true;
+    let threads = rng.chance(0.5);
+    let n_handles = rng.range(2, if long { 6 } else { 4 });
+    let mut g = G { rng, ops: vec![] };
+    g.ops.push(Op::New {
+        h: 0,
+        kind: HKind::Matcher,
+        alt: None,
+    });
+    for _ in 0..g.rng.below(3) {
+        let p = g.honest();
+        g.ops.push(Op::Commit {
+            h: 0,
+            pick: p,
+            fuel_at: None,
+        });
+    }
+    for hnew in 1..n_handles {
+        let src = g.rng.below(hnew);
+        g.ops.push(Op::Clone {
+            src,
+            dst: hnew,
+            deep: false,
+        });
+    }
+    sc.setup = std::mem::take(&mut g.ops);
+    let victim = g.rng.below(n_handles);
+    let step = |g: &mut G, h: SlotId, with_mask: bool| {
+        if with_mask {
+            g.ops.push(Op::Mask { h, fuel_at: None });
+        }
+        let p = g.honest();
+        g.ops.push(Op::Commit {
+            h,
+            pick: p,
+            fuel_at: None,
+        });
+    };
+    if !threads {
+        let rounds = if long { g.rng.range(4, 12) } else { g.rng.range(3, 7) };
+        for _ in 0..rounds {
+            // siblings run ahead, creating lexer states the victim has not paid for
+            for _ in 0..g.rng.range(2, if long { 30 } else { 14 }) {
+                let mut h = g.rng.below(n_handles);
+                if h == victim {
+                    h = (h + 1) % n_handles;
+                }
+                let with_mask = g.rng.chance(0.8);
+                step(&mut g, h, with_mask);
+            }
+            step(&mut g, victim, true);
+            if g.rng.chance(0.5) {
+                g.ops.push(Op::ChkFresh { h: victim });
+            }
+        }
+        for h in 0..n_handles {
+            g.ops.push(Op::ChkFresh { h });
+        }
+        sc.tasks = vec![std::mem::take(&mut g.ops)];
+    } else {
+        sc.threads = true;
+        let mut spec = gen_schedule(g.rng);
+        spec.strategy = match g.rng.below(4) {
+            0 => Strategy::Serial,
+            1 => Strategy::Pct,
+            _ => Strategy::Sticky,
+        };
+        spec.sticky_period = [20u32, 100, 400][g.rng.below(3)];
+        sc.schedule = Some(spec);
+        let n_tasks = n_handles.min(g.rng.range(2, 4));
+        for t in 0..n_tasks {
+            let mine: Vec<SlotId> = (0..n_handles).filter(|h| h % n_tasks == t).collect();
+            let n_ops = if long { g.rng.range(8, 40) } else { g.rng.range(5, 16) };
+            for _ in 0..n_ops {
+                let h = *g.rng.pick(&mine);
+                if h == victim && g.rng.chance(0.6) {
+                    // the victim moves slowly
+                    g.ops.push(Op::IsAccepting { h });
+                    continue;
+                }
+                let with_mask = g.rng.chance(0.8);
+                step(&mut g, h, with_mask);
+            }
+            for h in &mine {
+                g.ops.push(Op::ChkFresh { h: *h });
+            }
+            sc.tasks.push(std::mem::take(&mut g.ops));
+        }
     }
     sc
 }
@@ -1430,6 +1723,10 @@ fn gen_c17(rng: &mut Rng, seed: u64, index: u64, long: bool) -> Scenario {
                         _ => exact,
                     };
                     g.ops.push(Op::CMaskInto { h: 1, words: w });
+                }
+                8 => {
+                    let len = *g.rng.pick(&[0usize, 1, 1, 2, 3, 5, 64]);
+                    g.ops.push(Op::CFfInto { h: 1, len });
                 }
                 6 => {
                     let k = g.rng.range(1, 4);
@@ -1736,8 +2033,13 @@ fn gen_c18(rng: &mut Rng, seed: u64, index: u64, long: bool) -> Scenario {
                     _ => g.honest(),
                 };
                 if g.rng.chance(0.15) {
-                    let k = g.rng.range(2, 3);
-                    let picks = (0..k).map(|_| g.honest()).collect();
+                    let k = g.rng.range(2, 4);
+                    let mut picks: Vec<Pick> = (0..k).map(|_| g.honest()).collect();
+                    if g.rng.chance(0.4) {
+                        // end-of-sequence (or a token that completes the grammar) in the middle of a batch
+                        let at = g.rng.below(picks.len());
+                        picks[at] = Pick::EosAlt(g.rng.next_u64());
+                    }
                     g.ops.push(Op::TryConsume { h: 0, picks });
                 } else {
                     g.ops.push(Op::Commit {
@@ -1997,7 +2299,14 @@ fn gen_c20(rng: &mut Rng, seed: u64, index: u64, long: bool) -> Scenario {
     o.vocab_kinds = vec!["byte", "byte", "synth", "bpe"];
     let (mut world, productive) = gen_world(rng, &o);
     let mutated = sub < 3;
-    if mutated {
+    if sub == 3 {
+        // parametric rules with indices / ranges / values at and just beyond their domain
+        world.grammar_kind = GKind::Lark;
+        world.grammar_text = random_param_grammar(rng, true);
+        world.grammar_id = "rand_param~hostile".into();
+    }
+    let mutated = mutated || sub == 3;
+    if sub < 3 {
         world.grammar_text = mutate_text(rng, &world.grammar_text, world.grammar_kind);
         world.grammar_id = format!("{}~mut", world.grammar_id);
         if rng.chance(0.2) {
